@@ -295,4 +295,24 @@ PROPS = {
              level_note="partial: the Go memory model is not formalised; freedom from data races in the real code (incl. pgx) is observed "
                         "by the race detector on generated schedules, not proved. Trusted: Lean kernel; harness.",
              technique="Lean 4 proof (noninterference of a product system, induction on schedules) + differential correspondence under the race detector"),
+    "C16": P("Pw.Props.C16",
+             ["Pw.Props.C16.inv_init", "Pw.Props.C16.inv_step", "Pw.Props.C16.inv_run", "Pw.Props.C16.C16_no_double_close",
+              "Pw.Props.C16.C16_waits", "Pw.Props.C16.C16_final", "Pw.Props.C16.closing_mono", "Pw.Props.C16.C16_no_deadlock"],
+             [("close", 500, 40000)], ["Close"],
+             design_ref="§7 C16",
+             level_text="Lean theorems about a thread model of Server.Close / Server.admit / the Serve helper goroutine for ANY number of "
+                        "closers and commands and ANY schedule (inductive invariant: chan closes = [closing], wg = running handlers + "
+                        "[helper pending], every closer past its critical section implies closing): the closer channel is closed at most "
+                        "once (no double-close panic); a Close call can return only when no admitted handler is running and the listener "
+                        "has been closed; once any Close has returned every later admission is refused (closing is monotone); and while "
+                        "some Close has not returned some thread can always step (no deadlock). Critical sections of srv.mu contain no "
+                        "blocking operation and are modelled as atomic steps. Tie: pinned bodies of Close and admit and the pinned call "
+                        "order of consumeSingleCommand/Serve; forced-schedule replay through the verif hooks: generated schedules "
+                        "(1-3 concurrent Close calls x commands on 1-2 connections incl. failing extended batches) are executed on the "
+                        "real server by parking goroutines at the hook points; per-step outcomes (admitted/refused/returned) are compared "
+                        "with the model and the properties are checked directly with a logical clock (handler start vs Close return, "
+                        "Close return vs running handlers, hangs, Serve() == nil).",
+             level_note="partial: sync.Mutex, sync.WaitGroup, channels and the Go scheduler are trusted; 'Serve returns nil' is observed, "
+                        "not proved. Trusted: Lean kernel; hooks (build tag verif) add schedule points only.",
+             technique="Lean 4 proof (inductive invariant over an interleaving thread model) + forced-schedule correspondence through build-tag hooks"),
 }
